@@ -19,6 +19,7 @@ DEVS = {
     "Code_DetectorCheckNotAtomic": ("C04", "detector-check-not-atomic"),
     "Code_ClaimNotAtomic": ("C04", "reuse-claim-not-atomic"),
     "Code_AllClaimedCrashes": ("C04", "reuse-all-claimed-core-crash"),
+    "Code_FirstMessageResent": ("C06", "first-release-message-sent-twice"),
     "Code_OnlyLastWeightHooksReleased": ("C06", "destroy-hooks-only-last-weight-released"),
     "Code_InactiveHookNotReleased": ("C06", "inactive-destroy-hook-never-released"),
     "Code_RetryForgetsLaunched": ("C06", "deploy-retry-forgets-launched-tasks"),
@@ -26,9 +27,7 @@ DEVS = {
 }
 # how TeardownEnvironment merges the DESTROY and after_DESTROY hook maps (equal weights: the latter replaces
 # the former).  Not a C04/C06 matter: the model follows the code, the check reports it as an observation.
-ALWAYS = {"Code_AfterDestroyOverwrites": True,
-          # without DESTROY hooks the first ReleaseTasks message is sent a second time (harmless without task reuse)
-          "Code_FirstMessageResent": True}
+ALWAYS = {"Code_AfterDestroyOverwrites": True}
 
 HOOKDEF = {"h1": ("task", "DESTROY", 0), "h2": ("task", "DESTROY", 1), "h3": ("task", "after_DESTROY", 0),
            "d1": ("call", "DESTROY", 0), "d2": ("call", "DESTROY", 1), "d3": ("call", "after_DESTROY", 0)}
@@ -234,7 +233,9 @@ class Builder:
         self.envs[e] = rec
         fr = fail_role(rec["basic"])
         s = rec["script"]
-        roles, defaults = "", None
+        # undeployable / partial: the UNDEPLOYABLE notification of the workflow is sent without blocking and can be lost
+        # while DeployTransition.do is busy; DEPLOY then fails at deploy_timeout only (90 s by default)
+        roles, defaults = "", ({"deploy_timeout": "6s"} if s in ("undeployable", "partial") else None)
         for r in rec["basic"]:
             c = self.cls(e, r)
             cpu = 1000 if (s == "partial" and r == fr) else 0.1
@@ -347,9 +348,10 @@ def recipe_double_claim(sid, prefix="c", then_destroy=False):
         c = "%s%s" % (pre, r)
         classes[c] = r
         files["tasks/%s.yaml" % c] = cs.task_class(c)
-    for wf, roles in (("%sw1" % pre, ["a"]), ("%sw2" % pre, ["a", "b"])):
+    # (a reused task does not report ACTIVE to its new role: both deployments run into their deploy_timeout)
+    for wf, roles, dt in (("%sw1" % pre, ["a"], "3s"), ("%sw2" % pre, ["a", "b"], "3s"), ("%sw3" % pre, ["a", "b"], "8s")):
         y = "".join(cs.role_task(r, "%s%s" % (pre, r), host="h2" if r == "b" else "h1") for r in roles)
-        files["workflows/%s.yaml" % wf] = cs.workflow(wf, y, defaults={"deploy_timeout": "3s"})
+        files["workflows/%s.yaml" % wf] = cs.workflow(wf, y, defaults={"deploy_timeout": dt})
     nod = {"detectors": "[]"}
     reg, lock = "envman.create.registered", "task.lock"
     steps = [{"do": "mutepoint", "point": "envman.released.delivered"},
@@ -357,18 +359,18 @@ def recipe_double_claim(sid, prefix="c", then_destroy=False):
              {"do": "gate", "point": reg},
              {"do": "create", "env": "e2", "wf": pre + "w2", "vars": nod, "caller": "A", "timeout_ms": 20000},
              {"do": "waitgate", "point": reg, "n": 1, "timeout_ms": 4000},
-             {"do": "create", "env": "e3", "wf": pre + "w2", "vars": nod, "caller": "B", "timeout_ms": 20000},
+             {"do": "create", "env": "e3", "wf": pre + ("w3" if then_destroy else "w2"), "vars": nod, "caller": "B", "timeout_ms": 20000},
              {"do": "waitgate", "point": reg, "n": 2, "timeout_ms": 4000}, {"do": "disarm", "point": reg},
              {"do": "destroy", "env": "e1", "keep_tasks": True, "timeout_ms": 12000},
              {"do": "gate", "point": lock, "match": {"env": "e2"}}, {"do": "release", "point": reg},
              {"do": "waitgate", "point": lock, "timeout_ms": 4000}, {"do": "disarm", "point": lock},
              {"do": "release", "point": reg}, {"do": "settle", "ms": 150}, {"do": "release", "point": lock},
-             {"do": "await", "caller": "A", "timeout_ms": 20000}, {"do": "await", "caller": "B", "timeout_ms": 20000},
-             {"do": "settle", "ms": 60}, {"do": "snapshot"}]
+             {"do": "await", "caller": "A", "timeout_ms": 20000}]
     if then_destroy:
-        # e2's failure tail could not release the task e3 took over: e2 is still listed, and a destroy cannot be honoured
-        steps += [{"do": "destroy", "env": "e2", "force": True, "timeout_ms": 12000}, {"do": "settle", "ms": 60}, {"do": "snapshot"},
-                  {"do": "destroy", "env": "e3", "force": True, "timeout_ms": 12000}, {"do": "settle", "ms": 60}, {"do": "snapshot"}]
+        # e2's failure tail could not release the task e3 took over: e2 is still listed, and as long as e3 holds the task
+        # a destroy of e2 cannot be honoured: it must return an error
+        steps += [{"do": "destroy", "env": "e2", "force": True, "timeout_ms": 12000}, {"do": "snapshot"}]
+    steps += [{"do": "await", "caller": "B", "timeout_ms": 20000}, {"do": "settle", "ms": 60}, {"do": "snapshot"}]
     mk = lambda b: {"basic": b, "hooks": [], "pend": False, "dets": [], "script": "ok"}
     hist = [{"do": "recipe", "name": "reuse-double-claim"}]
     return {"id": sid, "family": "recipe:Code_ClaimNotAtomic", "agents": cs.DEFAULT_AGENTS, "files": files,
@@ -403,6 +405,9 @@ def harness_view(s):
 # ---------------------------------------------------------------------------------------------------
 # projection of the recorded lines for LifecycleTrace
 TERMINAL = {"TASK_FINISHED", "TASK_FAILED", "TASK_KILLED", "TASK_LOST", "TASK_ERROR", "TASK_DROPPED", "TASK_GONE"}
+HOOK_KEEP = {"envman.create.snapshot", "envman.create.registered", "env.lock.acquired", "env.lock.release", "env.teardown.phase",
+             "task.acquire.claim", "task.acquire.retry", "task.lock", "task.unlock", "task.roster.appended", "task.kill.select",
+             "task.kill.send", "api.force.error"}
 HOOK_DROP = {"env.watch.recv", "env.watch.fire", "env.setstate", "task.reconcile.kill", "envman.released.delivered"}
 
 
@@ -452,8 +457,8 @@ class Projector:
                     "inuse": "already in use" in ln.get("errtext", ""), "keep": self.keepflag.get(ln.get("env", ""), False)}
         if ev == "Hook":
             p = ln["point"]
-            if p in HOOK_DROP:
-                return None
+            if p in HOOK_DROP or p not in HOOK_KEEP:
+                return None     # points of other checks
             if p == "env.lock.acquired" and ln.get("what") not in ("DEPLOY", "DESTROY"):
                 return None
             if ln.get("task") and ln["task"] not in self.alias:
@@ -593,7 +598,8 @@ def cause_of(inv, s, detail, facts):
     if inv == "PostListed":
         # the failure tail of create ignores the error of its forced teardown: the environment stays listed when a release
         # was refused, which takes a task that another environment took over (double claim under task reuse)
-        return "double-claim" if any(f.get("claims", 0) >= 2 for f in tf.values()) else "other"
+        how = detail[1] if isinstance(detail, (list, tuple)) and len(detail) == 2 else "?"
+        return ("double-claim/%s" % how) if any(f.get("claims", 0) >= 2 for f in tf.values()) else "other"
     if inv == "Returns":
         call, e = (list(detail) + ["", ""])[:2] if isinstance(detail, (list, tuple)) else ("", "")
         if m.get("kill") == "silent":
